@@ -1931,6 +1931,7 @@ class TwoPort(Network, TwoPortMixin):
 
         return LaplaceDomainImpedance(self.Zparams[outport - 1, inport - 1])
 
+    @property
     def Ztrans12(self):
         """Return V2 / I1 for I2 = 0 (forward transimpedance) with
         independent sources killed
